@@ -31,3 +31,32 @@ CHECKS['C33'] = dict(
                  'a bounded iterator may return cached primes beyond its limit or limit+1 once exhausted (callers test p <= limit)',
                  'sampling, not proof'],
 )
+
+CHECKS['C25'] = dict(
+    variants=['asan'],
+    targets=['build/bin/c25'],
+    binaries=['build/bin/c25'],
+    quick=dict(runs=4000, workers=16, chunk=25, wall_cap=600),
+    thorough=dict(runs=80000, workers=16, chunk=25, wall_cap=3000),
+    run_timeout=60,
+    shrink_ints=['i', 'j', 'v', 'rows', 'cols'],
+    shrink_keys=['ops', 'entries', 'exprs'],
+    expected_probes=['set_insert_front', 'set_insert_middle', 'set_insert_back', 'set_overwrite', 'set_delete',
+                     'set_delete_last_in_row', 'set_zero_on_absent', 'set_insert_empty_row', 'coo_with_duplicates',
+                     'binop_entry_cancelled', 'matmat_entry_cancelled', 'matmat_B_wider_than_A',
+                     'unary_op_on_non_square'],
+    rule=('one run = a seeded history (10-170 steps) over a pool of 1-4 CSR matrices (<=8x8), each in lock step with a '
+          'dense reference: set/get, from_coo with duplicate and cancelling coordinates, transpose (both forms), '
+          'conjugate, conjugate_transpose, csr_binop_csr_canonical add/sub/mul, elementwise_mul_matrix, two-pass '
+          'csr_matmat product, csr_scale_rows/columns, csr_diagonal, jacobian (both forms), eq, is_real and the '
+          'NotImplemented members; after every step an independent canonical-format check of the raw arrays, '
+          'is_canonical(), and element-wise comparison with the dense result. Non-trivial = at least 3 '
+          'structure-changing steps on non-empty rows/matrices; distinct = distinct event-log hash.'),
+    state_measure='distinct (rows, cols, row pointers, column indices) sparsity patterns of pool members after a step',
+    components=dict(real=REAL_COMMON + ['CSRMatrix and csr_* functions', 'DenseMatrix (as reference)'],
+                    stub=['history of operations (seeded plan)', 'independent canonical-format checker in the harness']),
+    assumptions=['DenseMatrix operations are the reference (C24 not re-verified here)',
+                 'values compared by eq or expand(a-b)==0; entries are numbers and monomials',
+                 'csr_matmat_pass2 result is compared by value only (it neither sorts columns nor shrinks arrays, as in SciPy)',
+                 'matrices up to 8x8; ASan/UBSan report every memory error executed', 'sampling, not proof'],
+)
